@@ -1,4 +1,4 @@
-CONSTANTS LensChoices <- Choices6  MaxLenChoices = {6}  ChunkMax = 5  Junk = 2
+CONSTANTS LensChoices <- Choices6  MaxLenChoices = {6}  ChunkMax = 5  JunkChoices = {0, 2}  MaxConns = 2
 SPECIFICATION Spec
 INVARIANTS TypeOK Aligned OnlyLegalOut ClosedOnlyOnError NoPrematureWait
 PROPERTIES AllDelivered
